@@ -122,6 +122,14 @@ def check_lib(text, lib, ctx, api, items):
     return out
 
 
+def setup(ctx):
+    sp.scan_states_on()
+
+
+def finish(ctx):
+    sp.scan_states_flush(ctx)
+
+
 def check(case, ctx):
     text = case["text"]
     items = recogniser.recognise(text)
